@@ -293,8 +293,12 @@ SPECS = [
 ]
 
 
+FAILED = {}
+
+
 def translate(repo):
     srcs = {}
+    FAILED.clear()
     out = ["""/-
 GENERATED by harness/gen_kernels.py: mechanical translation of pointwise numpy kernels of flowdyn/modelphy
 (np.where -> if, np.minimum/maximum -> min/max, np.sqrt -> HasSqrt.sqrt, ** -> ^ / HasRpow.rpow, …) -- do not edit.
@@ -320,6 +324,10 @@ variable {α : Type} [Field α] [LinearOrder α] [IsStrictOrderedRing α]
         if sp.get('raw'):
             body = sp['raw']
         else:
+          try:
+            dep = [v[0] for v in sp.get('funcs', {}).values() if v[0] in FAILED]
+            if dep:
+                raise Untranslatable("depends on untranslatable %s" % dep[0])
             fn = find_method(tree, sp['cls'], sp['meth'])
             env = {}
             for k, v in sp.get('names', {}).items():
@@ -334,6 +342,10 @@ variable {α : Type} [Field α] [LinearOrder α] [IsStrictOrderedRing α]
                 env[('sub', 'param', k)] = v
             tr = Tr(src, env, {k: v for k, v in sp.get('funcs', {}).items()})
             body = tr.body(fn)
+          except Untranslatable as e:
+            # this kernel (and its bridge theorem) is left out: the properties that list the bridge lose a proof obligation
+            FAILED[sp['lean']] = str(e)
+            continue
         out.append("def %s%s (%s : α) : %s :=\n%s\n\n" % (sp['lean'], inst, " ".join(params), sp['ret'], body))
         bridge.append((sp['lean'], inst, params, sp['model'], sp.get('unfold', [])))
     out.append("end Flowdyn.GenK\n")
@@ -395,7 +407,8 @@ macro "kern_bridge" : tactic =>
     oldb = open(bp).read() if os.path.exists(bp) else None
     if oldb != btxt:
         open(bp, 'w').write(btxt)
-    print("gen_kernels: %s (%s), %d kernels" % (p, "unchanged" if old == txt else "rewritten", len(bridge)))
+    print("gen_kernels: %s (%s), %d kernels%s" % (p, "unchanged" if old == txt else "rewritten", len(bridge),
+          "".join("; UNTRANSLATABLE %s: %s" % kv for kv in sorted(FAILED.items()))))
     return 0
 
 
